@@ -959,10 +959,12 @@ func (b *book) genBlocks(base []*blk, n, fork int, seed uint64) []*blk {
 		}
 		// wallet: one or two new outputs (one immature), sometimes spend an old one
 		live := map[int]bool{}
+		bornAt := map[int]uint64{}
 		var liveOrder []int
 		for _, s := range stack {
 			for _, u := range s.created {
 				live[u] = true
+				bornAt[u] = s.h
 				liveOrder = append(liveOrder, u)
 			}
 			for _, u := range s.spent {
@@ -977,7 +979,8 @@ func (b *book) genBlocks(base []*blk, n, fork int, seed uint64) []*blk {
 		}
 		if r.Chance(1, 2) {
 			for _, u := range liveOrder {
-				if live[u] {
+				// consensus only lets matured outputs be spent
+				if m := maturityOf(u, bornAt[u]); live[u] && (m == 0 || m < h) {
 					bl.spent = append(bl.spent, u)
 					break
 				}
